@@ -513,10 +513,15 @@ func (fx *fnExec) evalCall(e *Expr, env *Env) TV {
 			return TV{Sc{fx.gposOf(env.cur, ref), SInt}, tInt}
 		}
 		return TV{Sc{fx.gendOf(env.cur, ref), SInt}, tInt}
-	case "pf": // position soundness of a node (nil: true) or of every element of a slice, chained in order
+	case "pf", "within", "argsWithin", "pfLocals":
+		if !fx.g.positions {
+			return TV{Sc{"true", SBool}, tBool}
+		}
+		return fx.evalCallPos(e, env)
+	case "pf!": // position soundness of a node (nil: true) or of every element of a slice, chained in order
 		v := fx.eval(e.Args[0], env)
 		return TV{Sc{fx.pfTerm(v, env.cur), SBool}, tBool}
-	case "within": // within(x, lo, hi): x is nil/empty, or lies inside [lo, hi]
+	case "within!": // within(x, lo, hi): x is nil/empty, or lies inside [lo, hi]
 		v := fx.eval(e.Args[0], env)
 		lo, hi := fx.evalInt(e.Args[1], env), fx.evalInt(e.Args[2], env)
 		return TV{Sc{fx.withinTerm(v, env.cur, lo, hi), SBool}, tBool}
@@ -543,7 +548,7 @@ func (fx *fnExec) evalCall(e *Expr, env *Env) TV {
 			}
 		}
 		return TV{Sc{fx.s.define("lb", SInt, lb), SInt}, tInt}
-	case "argsWithin": // every position / node handed in lies before the current token and is position-sound
+	case "argsWithin!": // every position / node handed in lies before the current token and is position-sound
 		var cs []string
 		tokPos := fx.evalInt(&Expr{Op: "sel", Name: "Pos", Args: []*Expr{{Op: "sel", Name: "Token", Args: []*Expr{{Op: "sel", Name: "Lexer", Args: []*Expr{{Op: "id", Name: "p"}}}}}}}, env)
 		for _, name := range sortedKeys(env.vars) {
@@ -576,7 +581,7 @@ func (fx *fnExec) evalCall(e *Expr, env *Env) TV {
 			cs = append(cs, fx.wfTerm(tv, env))
 		}
 		return TV{Sc{and(cs...), SBool}, tBool}
-	case "pfLocals": // every loop-carried node value (phi of this loop head) is position-sound and lies before the current token
+	case "pfLocals!": // every loop-carried node value (phi of this loop head) is position-sound and lies before the current token
 		var cs []string
 		if env.fr != nil && env.at != nil {
 			tokPos := fx.evalInt(&Expr{Op: "sel", Name: "Pos", Args: []*Expr{{Op: "sel", Name: "Token", Args: []*Expr{{Op: "sel", Name: "Lexer", Args: []*Expr{{Op: "id", Name: "p"}}}}}}}, env)
@@ -1161,4 +1166,11 @@ func (fx *fnExec) pfAllTerm(st *State, x SliceV) string {
 		implies(app("<", app("+", k, "1"), x.Len), app("<=", fx.gendOf(st, ek), fx.gposOf(st, ek1))))
 	fx.s.usesQuant = true
 	return fmt.Sprintf("(forall ((%s Int)) (! (=> (and (<= 0 %s) (< %s %s)) %s) :pattern (%s)))", k, k, k, x.Len, body, ek)
+}
+
+// evalCallPos dispatches the position builtins (they evaluate to true when the ghost position layer is off).
+func (fx *fnExec) evalCallPos(e *Expr, env *Env) TV {
+	e2 := *e
+	e2.Name = e.Name + "!"
+	return fx.evalCall(&e2, env)
 }
